@@ -478,6 +478,9 @@ for _k, _v in _ROUND8.items():
 
 # Forms added after the ninth set (DESIGN.md section 11.1, round 9)
 _ROUND9 = {
+    "C02": "Also: updates in which only the options of a route's targets change: every target a lookup returns carries the new options.",
+    "C09": "Also: one-way streams (the client only listens) that outlast the listener's rt / wt / it as config.Load reads them from proxy.addr.",
+    "C19": "Also: an https upstream whose TLS handshake starts later than proxy.dialtimeout and that answers inside the response-header timeout is served (default, skip-verify and per-route transports).",
     "C03": "Also: Host forms through main.go's proxy (underscores, leading hyphen, trailing dot, upper case, ports, IP literals): routed, never refused.",
     "C04": "Also: the routes API filtered by each service of the table and the table's log renderings between cycles.",
     "C05": "Also: bare hosts (no slash) in any letter case; weights such as 33.333, 12.3456, 123456.",
